@@ -150,7 +150,8 @@ def run_property(pid, tier, seed):
     all_targets = list(getattr(prop, 'TARGETS', []))
     targets = [t for t in all_targets if not (tier == 'quick' and t in core.HEAVY)]
     deferred = [t for t in all_targets if t not in targets]
-    obs, und, gen_s, solve_s = core.verify_targets(ld, targets, timeout_ms=getattr(prop, 'TIMEOUT_MS', 30000),
+    obs, und, gen_s, solve_s = core.verify_targets(ld, targets,
+                                                   timeout_ms=getattr(prop, 'TIMEOUT_MS', 30000) * (2 if tier == 'thorough' else 1),
                                                    short_for=ledger)
     for t, reason in und:
         undecided.append({'clause': t, 'reason': reason})
@@ -162,6 +163,7 @@ def run_property(pid, tier, seed):
         by_solver[o.solver or '?'] = by_solver.get(o.solver or '?', 0) + 1
     not_discharged = []
     soft_undecided = []
+    checker_error = False
     known_clauses = {k['clause']: k for k in known.get('known', []) if k['property'] == pid and k.get('clause')}
     for key, status in sorted(summ.items()):
         led = ledger.get(key)
@@ -247,6 +249,15 @@ def run_property(pid, tier, seed):
             if still:
                 known_hits.append(k)
 
+    # ---------------- thorough tier: canary edits (guards against an unsound or vacuous checker)
+    canary = None
+    if tier == 'thorough' and all_targets:
+        from . import canaries
+        canary = canaries.run(props=[pid], verbose=False)
+        if canary['survived'] or canary['benign_broken']:
+            print('CHECKER-ERROR property=%s surviving canaries %r, broken benign edits %r'
+                  % (pid, canary['survived'], canary['benign_broken']))
+            checker_error = True
     wall = time.time() - t0
     seen = set()
     for k in known_hits:
@@ -283,6 +294,9 @@ def run_property(pid, tier, seed):
         'attempted_not_discharged': sorted(not_discharged),
         'explanation': getattr(prop, 'EXPLANATION', ''),
     }
+    if canary is not None:
+        cov['canary_mutants_killed'] = len(canary['killed'])
+        cov['canary_mutants'] = canary
     if obs:
         cov['samples'] = [{'obligation': o.oid, 'kind': o.kind, 'status': o.status, 'solver': o.solver,
                            'time_s': round(o.time, 3)} for o in obs[:5]]
@@ -302,6 +316,8 @@ def run_property(pid, tier, seed):
           (pid, n_obl, n_dis, len(undecided), len(vseen), wall))
     if vseen:
         return 1
+    if checker_error:
+        return 3
     if undecided:
         return 2
     return 0
@@ -364,12 +380,18 @@ def main(argv=None):
     ap.add_argument('--replay')
     ap.add_argument('--ledger', action='store_true')
     ap.add_argument('--only', nargs='*')
+    ap.add_argument('--canaries', action='store_true')
     a = ap.parse_args(argv)
     seed = int(os.environ.get('VERIF_SEED', '0') or 0)
     try:
         if a.ledger:
             update_ledger(a.only)
             return 0
+        if a.canaries:
+            from . import canaries
+            r = canaries.run(props=[a.prop] if a.prop else None)
+            print(r)
+            return 0 if not r['survived'] and not r['benign_broken'] else 3
         if a.replay:
             from . import replay
             return replay.run(a.replay)
